@@ -44,6 +44,24 @@ type Run struct {
 	// Shared > 0: render Shared times with the SAME context value; every render must give the
 	// first one's result and the context (deep snapshot incl. slice capacity windows) must not change
 	Shared int `json:"shared"`
+	// Again > 0: after the render the same engine renders again that many times; outcome and spy counts must repeat
+	Again int `json:"again"`
+	// DenyFalse: this run's policy lists what it forbids with the value false
+	DenyFalse bool `json:"denyfalse"`
+	// Then: further renders on the SAME engine after its policy was replaced; each with its own expectation
+	Then []Phase `json:"then"`
+}
+
+// Phase: the engine's security policy is replaced (EnableSandbox, or the maps of the installed policy are
+// edited in place when Edit is set) and the entry template is rendered again
+type Phase struct {
+	AllowF  []string        `json:"allowf"`
+	AllowFn []string        `json:"allowfn"`
+	Edit    bool            `json:"edit"`
+	Ok      bool            `json:"ok"`
+	Out     []int           `json:"out"`
+	Err     string          `json:"err"`
+	Calls   json.RawMessage `json:"calls"`
 }
 
 type Expect struct {
@@ -63,18 +81,34 @@ type Expect struct {
 }
 
 type Cfg struct {
-	Sandbox     bool     `json:"sandbox"`     // engine has a security policy
-	AllowF      []string `json:"allowf"`      // filters the policy allows
-	AllowFn     []string `json:"allowfn"`     // functions the policy allows
-	FaultID     string   `json:"faultid"`     // spy id whose nth invocation fails
-	FaultNth    int      `json:"faultnth"`    //
-	Loader      bool     `json:"loader"`      // serve templates through an ArrayLoader
-	Debug       bool     `json:"debug"`       // engine debug mode
-	Writer      string   `json:"writer"`      // "", "buffer", "plain"
-	Missing     []string `json:"missing"`     // (informational)
-	FaultLoad   string   `json:"faultload"`   // template name whose Load fails with the sentinel
-	FrontLoader bool     `json:"frontloader"` // an empty ArrayLoader is registered before the real one
-	SelfPanic   bool     `json:"selfpanic"`   // binding self-test: the harness panics where the engine would, and must report it
+	Sandbox     bool            `json:"sandbox"`     // engine has a security policy
+	AllowF      []string        `json:"allowf"`      // filters the policy allows
+	AllowFn     []string        `json:"allowfn"`     // functions the policy allows
+	FaultID     string          `json:"faultid"`     // spy id whose nth invocation fails
+	FaultNth    int             `json:"faultnth"`    //
+	Loader      bool            `json:"loader"`      // serve templates through an ArrayLoader
+	Debug       bool            `json:"debug"`       // engine debug mode
+	Writer      string          `json:"writer"`      // "", "buffer", "plain"
+	Missing     []string        `json:"missing"`     // (informational)
+	FaultLoad   string          `json:"faultload"`   // template name whose Load fails with the sentinel
+	FrontLoader bool            `json:"frontloader"` // an empty ArrayLoader is registered before the real one
+	BackLoader  bool            `json:"backloader"`  // an empty ArrayLoader is registered after the real one
+	ChainLoader bool            `json:"chainloader"` // the real loader sits in a ChainLoader between two empty ones
+	SpyNames    []string        `json:"spynames"`    // further names under which the spy function is registered
+	DenyFalse   bool            `json:"denyfalse"`   // policy maps carry explicit false entries for what is not allowed
+	SelfPanic   bool            `json:"selfpanic"`   // binding self-test: the harness panics where the engine would, and must report it
+	Globals     json.RawMessage `json:"globals"`     // name -> value, registered with Engine.AddGlobal (and not passed in the context)
+}
+
+// path-like template names of the specification (TwigSem NT: pm |-> "p/m" ...): the key used in the
+// model's template table stands for the text the engine knows the template by
+var pathNames = map[string]string{"pm": "p/m", "pb": "p/b", "ph": "p/h", "sh": "s/h", "sb": "s/b", "sm": "s/m"}
+
+func engineName(key string) string {
+	if n, ok := pathNames[key]; ok {
+		return n
+	}
+	return key
 }
 
 type Case struct {
@@ -199,20 +233,24 @@ func idOf(v interface{}) string {
 //	v|sf('id') / v|sfx('id')     filter: counts id, returns v
 //	v is st('id') / stx          test: counts id, returns truthiness flag passed as 2nd arg (default true)
 //	v|vdump                      filter: serialises the Go value it receives
+func spyFunction(st *spyState) func(args ...interface{}) (interface{}, error) {
+	return func(args ...interface{}) (interface{}, error) {
+		if len(args) < 1 {
+			return nil, nil
+		}
+		if err := st.hit(idOf(args[0])); err != nil {
+			return nil, err
+		}
+		if len(args) > 1 {
+			return args[1], nil
+		}
+		return nil, nil
+	}
+}
+
 func registerSpies(e *twig.Engine, st *spyState) {
 	for _, name := range []string{"sp", "spx"} {
-		e.AddFunction(name, func(args ...interface{}) (interface{}, error) {
-			if len(args) < 1 {
-				return nil, nil
-			}
-			if err := st.hit(idOf(args[0])); err != nil {
-				return nil, err
-			}
-			if len(args) > 1 {
-				return args[1], nil
-			}
-			return nil, nil
-		})
+		e.AddFunction(name, spyFunction(st))
 	}
 	for _, name := range []string{"sf", "sfx"} {
 		e.AddFilter(name, func(v interface{}, args ...interface{}) (interface{}, error) {
@@ -268,6 +306,19 @@ func makePolicy(c Cfg) twig.SecurityPolicy {
 	for _, f := range c.AllowFn {
 		p.AllowedFunctions[f] = true
 	}
+	if c.DenyFalse {
+		// the names the policy does not allow are listed with the value false instead of being absent
+		for _, f := range []string{"sf", "sfx", "sfz", "sfa", "upper", "default", "sort", "reverse", "spaceless"} {
+			if !p.AllowedFilters[f] {
+				p.AllowedFilters[f] = false
+			}
+		}
+		for _, f := range []string{"sp", "spx", "range", "max", "mm", "mw", "parent"} {
+			if !p.AllowedFunctions[f] {
+				p.AllowedFunctions[f] = false
+			}
+		}
+	}
 	return p
 }
 
@@ -322,8 +373,25 @@ func renderRun(c *Case, r *Run, ctx map[string]interface{}) (o obs) {
 		panic("verif self-test panic")
 	}
 	registerSpies(e, st)
+	for _, name := range c.Cfg.SpyNames {
+		e.AddFunction(name, spyFunction(st))
+	}
+	if len(c.Cfg.Globals) > 0 && c.Cfg.Globals[0] == '{' { // TLC prints an empty function as []
+		var gl map[string]Value
+		if err := json.Unmarshal(c.Cfg.Globals, &gl); err != nil {
+			panic("harness: bad globals: " + err.Error())
+		}
+		for name, gv := range gl {
+			e.AddGlobal(name, toGo(gv))
+		}
+	}
+	var installedPolicy *twig.DefaultSecurityPolicy
 	if c.Cfg.Sandbox {
-		e.EnableSandbox(makePolicy(c.Cfg))
+		cfg1 := c.Cfg
+		cfg1.DenyFalse = cfg1.DenyFalse || r.DenyFalse
+		pol := makePolicy(cfg1)
+		installedPolicy, _ = pol.(*twig.DefaultSecurityPolicy)
+		e.EnableSandbox(pol)
 	}
 	if c.Cfg.Debug || r.Debug {
 		defer twig.SetDebugLevel(twig.DebugOff) // the debug level is process-wide
@@ -337,8 +405,9 @@ func renderRun(c *Case, r *Run, ctx map[string]interface{}) (o obs) {
 	r.Pads = resolvePads(r.Tp, r.Pads)
 	srcs := map[string]string{}
 	for name, ps := range r.Tp {
-		srcs[name] = sourceOf(ps, r.Pads)
+		srcs[engineName(name)] = sourceOf(ps, r.Pads)
 	}
+	entry = engineName(entry)
 	if c.Cfg.Loader || c.Cfg.FaultLoad != "" {
 		if c.Cfg.FrontLoader {
 			e.RegisterLoader(twig.NewArrayLoader(map[string]string{}))
@@ -347,7 +416,13 @@ func renderRun(c *Case, r *Run, ctx map[string]interface{}) (o obs) {
 		if c.Cfg.FaultLoad != "" {
 			l = &faultLoader{inner: l, name: c.Cfg.FaultLoad}
 		}
+		if c.Cfg.ChainLoader {
+			l = twig.NewChainLoader([]twig.Loader{twig.NewArrayLoader(map[string]string{}), l, twig.NewArrayLoader(map[string]string{})})
+		}
 		e.RegisterLoader(l)
+		if c.Cfg.BackLoader {
+			e.RegisterLoader(twig.NewArrayLoader(map[string]string{}))
+		}
 	} else {
 		for name, src := range srcs {
 			if err := e.RegisterString(name, src); err != nil {
@@ -382,30 +457,32 @@ func renderRun(c *Case, r *Run, ctx map[string]interface{}) (o obs) {
 		}
 		return
 	}
-	var out string
-	var err error
 	writer := c.Cfg.Writer
 	if r.Writer != "" {
 		writer = r.Writer
 	}
-	switch writer {
-	case "buffer":
-		var b bytes.Buffer
-		err = e.RenderTo(&b, entry, ctx)
-		out = b.String()
-		if err != nil {
-			out = ""
+	renderOnce := func() (out string, err error) {
+		switch writer {
+		case "buffer":
+			var b bytes.Buffer
+			err = e.RenderTo(&b, entry, ctx)
+			out = b.String()
+			if err != nil {
+				out = ""
+			}
+		case "plain":
+			var w plainWriter
+			err = e.RenderTo(&w, entry, ctx)
+			out = w.buf.String()
+			if err != nil {
+				out = ""
+			}
+		default:
+			out, err = e.Render(entry, ctx)
 		}
-	case "plain":
-		var w plainWriter
-		err = e.RenderTo(&w, entry, ctx)
-		out = w.buf.String()
-		if err != nil {
-			out = ""
-		}
-	default:
-		out, err = e.Render(entry, ctx)
+		return
 	}
+	out, err := renderOnce()
 	if err != nil {
 		o.kind = classify(err)
 		o.errMsg = err.Error()
@@ -413,6 +490,102 @@ func renderRun(c *Case, r *Run, ctx map[string]interface{}) (o obs) {
 	} else {
 		o.ok = true
 		o.out = out
+	}
+	// Again > 0: the same engine renders the same template again; outcome and spy counts must repeat
+	if r.Again > 0 && c.Cfg.FaultID == "" {
+		first := map[string]int64{}
+		for k, v := range st.counts {
+			first[k] = atomic.LoadInt64(v)
+		}
+		for k := 0; k < r.Again; k++ {
+			for _, v := range st.counts {
+				atomic.StoreInt64(v, 0)
+			}
+			out2, err2 := renderOnce()
+			diff := ""
+			if (err2 == nil) != (err == nil) || out2 != out || (err2 != nil && classify(err2) != classify(err)) {
+				diff = fmt.Sprintf("render %d on the same engine: ok=%v %q (first: ok=%v %q)", k+2, err2 == nil, out2, err == nil, out)
+			}
+			for id, n := range first {
+				if p := st.counts[id]; p == nil || atomic.LoadInt64(p) != n {
+					diff += fmt.Sprintf(" callback %s invoked a different number of times in render %d (first: %d)", id, k+2, n)
+				}
+			}
+			for id, p := range st.counts {
+				if _, ok := first[id]; !ok && atomic.LoadInt64(p) != 0 {
+					diff += fmt.Sprintf(" callback %s invoked only in render %d", id, k+2)
+				}
+			}
+			if diff != "" {
+				o.ok, o.kind, o.errMsg = false, "again-differs", diff
+				break
+			}
+		}
+		for id, n := range first {
+			atomic.StoreInt64(st.counts[id], n)
+		}
+	}
+	firstCounts := map[string]int64{}
+	for k, v := range st.counts {
+		firstCounts[k] = atomic.LoadInt64(v)
+	}
+	if len(r.Then) > 0 {
+		defer func() { // the case's own expectation is about the first render
+			for _, v := range st.counts {
+				atomic.StoreInt64(v, 0)
+			}
+			for id, n := range firstCounts {
+				atomic.StoreInt64(st.counts[id], n)
+			}
+		}()
+	}
+	for pi, ph := range r.Then {
+		for _, v := range st.counts {
+			atomic.StoreInt64(v, 0)
+		}
+		cfg2 := c.Cfg
+		cfg2.AllowF, cfg2.AllowFn = ph.AllowF, ph.AllowFn
+		if ph.Edit && installedPolicy != nil {
+			np := makePolicy(cfg2).(*twig.DefaultSecurityPolicy)
+			for k := range installedPolicy.AllowedFilters {
+				delete(installedPolicy.AllowedFilters, k)
+			}
+			for k := range installedPolicy.AllowedFunctions {
+				delete(installedPolicy.AllowedFunctions, k)
+			}
+			for k, v := range np.AllowedFilters {
+				installedPolicy.AllowedFilters[k] = v
+			}
+			for k, v := range np.AllowedFunctions {
+				installedPolicy.AllowedFunctions[k] = v
+			}
+		} else {
+			e.EnableSandbox(makePolicy(cfg2))
+		}
+		out2, err2 := renderOnce()
+		diff := ""
+		if (err2 == nil) != ph.Ok {
+			diff = fmt.Sprintf("ok=%v (%v), want ok=%v", err2 == nil, err2, ph.Ok)
+		} else if ph.Ok && out2 != textOf(ph.Out, nil, false) {
+			diff = fmt.Sprintf("output %q, want %q", out2, textOf(ph.Out, nil, false))
+		} else if !ph.Ok && ph.Err != "any" && classify(err2) != ph.Err {
+			diff = fmt.Sprintf("error kind %s (%v), want %s", classify(err2), err2, ph.Err)
+		} else if !ph.Ok && out2 != "" {
+			diff = fmt.Sprintf("output %q returned together with an error", out2)
+		}
+		for id, want := range countsOf(ph.Calls) {
+			got := 0
+			if p := st.counts[id]; p != nil {
+				got = int(atomic.LoadInt64(p))
+			}
+			if got != want {
+				diff += fmt.Sprintf(" callback %s invoked %d times, want %d", id, got, want)
+			}
+		}
+		if diff != "" {
+			o.ok, o.kind, o.errMsg = false, "phase-differs", fmt.Sprintf("phase %d after a policy change: %s", pi+1, diff)
+			break
+		}
 	}
 	if r.Probe {
 		probeEngine(e, &o)
